@@ -830,8 +830,10 @@ orc_x86_insn_output_asm (OrcCompiler *p, OrcX86Insn *xinsn)
   }
 
   if (xinsn->prefix == ORC_X86_AVX_VEX128_PREFIX || xinsn->prefix == ORC_X86_AVX_VEX256_PREFIX) {
+    /* the fourth operand of a variable blend is the mask, encoded in the
+     * immediate byte: it comes first in AT&T order */
     ORC_ASM_CODE(p,"  v%s %s%s%s%s%s\n", xinsn->opcode->name,
-        imm_str, src_op, src_2nd_op, src_3rd_op, dst_op);
+        imm_str, src_3rd_op, src_op, src_2nd_op, dst_op);
   } else {
     const char *suffix = "";
     const size_t len = strlen (xinsn->opcode->name);
